@@ -223,6 +223,9 @@ def main(argv=None):
         known_findings_hit=[v["key"] for v in knownhits],
         violation_keys=[v["key"] for v in viols],
     )
+    if mod.LEVEL != "model_checking":
+        for k in ("states", "transitions", "traces_validated_against_impl"):
+            cov.pop(k, None)
     for k, v in total.extra.items():
         cov.setdefault(k, v)
     if hasattr(mod, "finish"):
@@ -237,7 +240,7 @@ def main(argv=None):
     ok = validate_evidence(evpath)
     print("%s tier=%s seed=%d executions=%d distinct_outcomes=%d states=%d transitions=%d maxdev=%d "
           "known=%d violations=%d wall=%.1fs" % (pid, tier, seed, total.executions, len(total.obs),
-                                                 cov["states"], cov["transitions"], total.maxdev,
+                                                 cov.get("states", 0), cov.get("transitions", 0), total.maxdev,
                                                  len(knownhits), len(viols), wall))
     if len(total.obs) <= 1 and total.executions > 1:
         print("BROKEN(vacuous): %d executions produced one single observation" % total.executions)
